@@ -12,6 +12,14 @@ fn bytes_json(b: &[u8]) -> String {
     format!("[{}]", b.iter().map(|x| x.to_string()).collect::<Vec<_>>().join(","))
 }
 
+/// the response's own state summaries, in the order of the C10 model's obs_summary
+fn summ<const N: usize, T>(r: &ethercrab::TxRxResponse<N, T>) -> String {
+    use ethercrab::SubDeviceState as S;
+    let single = r.group_in_single_state().map(|s| u8::from(s) as i64).unwrap_or(-1);
+    let v: Vec<String> = [S::None, S::Init, S::PreOp, S::Bootstrap, S::SafeOp, S::Op].iter().map(|s| (r.is_in_state(*s) as u8).to_string()).collect();
+    format!(",\"summ\":[{},{},{},{}]", r.group_state().bits(), single, r.all_op() as u8, v.join(","))
+}
+
 struct Dg {
     cmd: u8,
     adp: u16,
@@ -95,7 +103,7 @@ fn run_case<const D: usize>(rng: &mut Rng, variant: u8, release: bool) -> String
             let r = std::panic::catch_unwind(std::panic::AssertUnwindSafe(|| net::run(group.tx_rx(md), &mut tx, &mut rx, &mut wire, &mut log, 3000)));
             match r {
                 Err(_) => "\"res\":\"PANIC\"".into(),
-                Ok(RunEnd::Done(Ok(resp))) => format!("\"res\":\"Ok\",\"wkc\":{},\"time\":0,\"states\":[{}]", resp.working_counter, resp.subdevice_states.iter().map(|s| u8::from(*s).to_string()).collect::<Vec<_>>().join(",")),
+                Ok(RunEnd::Done(Ok(resp))) => format!("\"res\":\"Ok\",\"wkc\":{},\"time\":0,\"states\":[{}]", resp.working_counter, resp.subdevice_states.iter().map(|s| u8::from(*s).to_string()).collect::<Vec<_>>().join(",")) + &summ(&resp),
                 Ok(RunEnd::Done(Err(e))) => format!("\"res\":\"Err\",\"err\":\"{:?}\"", e),
                 Ok(_) => "\"res\":\"HANG\"".into(),
             }
@@ -104,7 +112,7 @@ fn run_case<const D: usize>(rng: &mut Rng, variant: u8, release: bool) -> String
             let r = std::panic::catch_unwind(std::panic::AssertUnwindSafe(|| net::run(group.tx_rx_sync_system_time(md), &mut tx, &mut rx, &mut wire, &mut log, 3000)));
             match r {
                 Err(_) => "\"res\":\"PANIC\"".into(),
-                Ok(RunEnd::Done(Ok(resp))) => format!("\"res\":\"Ok\",\"wkc\":{},\"time\":{},\"timesome\":{},\"states\":[{}]", resp.working_counter, resp.extra.unwrap_or(0), resp.extra.is_some(), resp.subdevice_states.iter().map(|s| u8::from(*s).to_string()).collect::<Vec<_>>().join(",")),
+                Ok(RunEnd::Done(Ok(resp))) => format!("\"res\":\"Ok\",\"wkc\":{},\"time\":{},\"timesome\":{},\"states\":[{}]", resp.working_counter, resp.extra.unwrap_or(0), resp.extra.is_some(), resp.subdevice_states.iter().map(|s| u8::from(*s).to_string()).collect::<Vec<_>>().join(",")) + &summ(&resp),
                 Ok(RunEnd::Done(Err(e))) => format!("\"res\":\"Err\",\"err\":\"{:?}\"", e),
                 Ok(_) => "\"res\":\"HANG\"".into(),
             }
@@ -114,7 +122,7 @@ fn run_case<const D: usize>(rng: &mut Rng, variant: u8, release: bool) -> String
             let r = std::panic::catch_unwind(std::panic::AssertUnwindSafe(|| net::run(g.tx_rx_dc(md), &mut tx, &mut rx, &mut wire, &mut log, 3000)));
             let s = match r {
                 Err(_) => "\"res\":\"PANIC\"".into(),
-                Ok(RunEnd::Done(Ok(resp))) => format!("\"res\":\"Ok\",\"wkc\":{},\"time\":{},\"off\":{},\"wait\":{},\"states\":[{}]", resp.working_counter, resp.extra.dc_system_time, resp.extra.cycle_start_offset.as_nanos(), resp.extra.next_cycle_wait.as_nanos(), resp.subdevice_states.iter().map(|s| u8::from(*s).to_string()).collect::<Vec<_>>().join(",")),
+                Ok(RunEnd::Done(Ok(resp))) => format!("\"res\":\"Ok\",\"wkc\":{},\"time\":{},\"off\":{},\"wait\":{},\"states\":[{}]", resp.working_counter, resp.extra.dc_system_time, resp.extra.cycle_start_offset.as_nanos(), resp.extra.next_cycle_wait.as_nanos(), resp.subdevice_states.iter().map(|s| u8::from(*s).to_string()).collect::<Vec<_>>().join(",")) + &summ(&resp),
                 Ok(RunEnd::Done(Err(e))) => format!("\"res\":\"Err\",\"err\":\"{:?}\"", e),
                 Ok(_) => "\"res\":\"HANG\"".into(),
             };
